@@ -2,7 +2,7 @@
 Independent implementations of the format checks typedpy's extfields make after / around storing a string
 (DateString -> datetime.strptime, TimeString, IPV4, HostName, JSONString -> json.loads).  They answer the model's regex
 oracle (`Oracles.reMatch`) for the synthetic pattern tokens `@date:<format>`, `@time`, `@ipv4`, `@hostname`, `@json`
-that carry such fields on the wire (harness/dump.py).  Written from the documentation of the formats, NOT by calling
+that carry such fields on the wire (harness/dump.py, harness/formats.py: `{"k": "string", "fmt": ...}`).  Written from the documentation of the formats, NOT by calling
 strptime / json: date arithmetic, the strptime directive grammar and a small recursive-descent JSON recogniser.
 """
 
@@ -247,16 +247,26 @@ def json_ok(s):
     return p.i == len(s)
 
 
-def token_ok(token, s):
-    """answer of the pattern oracle for a synthetic format token"""
-    if token.startswith("@date:"):
-        return strptime_ok(s, token[len("@date:"):])
-    return {"@time": lambda x: strptime_ok(x, "%H:%M:%S"), "@ipv4": ipv4_ok, "@hostname": hostname_ok, "@json": json_ok}[token](s)
+def fmt_ok(fmt, s):
+    """what the LIBRARY's check of format `fmt` (harness/formats.py naming: "date:<strptime format>", "time", "ipv4",
+    "hostname", "json") decides on `s`, computed independently of the library and of strptime / json"""
+    if fmt.startswith("date:"):
+        return strptime_ok(s, fmt[len("date:"):])
+    return {"time": lambda x: strptime_ok(x, "%H:%M:%S"), "ipv4": ipv4_ok, "hostname": hostname_ok, "json": json_ok}[fmt](s)
 
 
-def fix_re_table(table):
-    """re_table entries of synthetic tokens (computed by gen.re_table as if they were regexes) -> the independent verdicts"""
-    return [[p, s, token_ok(p, s) if p.startswith("@") else m] for p, s, m in table]
+def overrides(table):
+    """`reOverride` entries for a re table (gen.re_table answers a format token with the DOCUMENTED language of the format,
+    harness/formats.py): where the library's own language differs (trailing newline under `$`, host-name label rules)
+    the mutation machine must follow the library - the deviation itself is C02's finding, not C03's"""
+    from .. import formats as F
+    out = []
+    for p, s, m in table:
+        if F.is_token(p):
+            lib = fmt_ok(F.fmt_of_token(p), s)
+            if lib != m:
+                out.append([p, s, lib])
+    return out
 
 
 POOL = ["2020-01-31", "2021-02-29", "2024-02-29", "1999-12-31", "2020-13-01", "2020-1-5", "2020-01-32", "20-01-01", "2020/01/31",
